@@ -1884,7 +1884,7 @@ def gauged_size1_bonds(mk, geom, op):
         mk.same(f"{lab}: at most one label joins A and B, none of size 1", (len(sh) <= 1, [ix for ix in sh if t2.ind_size(ix) == 1]), (True, []))
 
 
-@obligation(PROP, params=[{"geom": g} for g in ("oneone2", "onemulti2", "multi")], tiers=_T, rounds=2, wall_s=200, timeout_s=280,
+@obligation(PROP, params=[{"geom": g} for g in ("oneone2", "onemulti2", "multi")], tiers=_T, mandatory=False, rounds=2, wall_s=200, timeout_s=280,
             max_rows=15000, exc_is_violation=True, allow_exc=(P.Unsupported,))
 def compress_all_gauges_multibond(mk, geom):
     """compress_all(..., gauges=dict) (the option is forwarded to every compress_between / tensor_compress_bond,
